@@ -35,6 +35,7 @@ def make_service(log, held, name):
         I.Method('Swap', '(si)', '(is)'), I.Method('Fail', 's', ''),
         I.Method('Slow', 's', 's'), I.Method('Dict', 'a{sv}', 'a{sv}'),
         I.Method('Nothing', '', ''), I.Method('Who', '', 's'),
+        I.Method('Ints', 'ai', 'ai'), I.Method('Tup1', 'i', '(i)'),
         noRegister=True)
     other = I.DBusInterface('org.ex.Other', I.Method('Echo', 's', 's'),
                             noRegister=True)
@@ -63,6 +64,14 @@ def make_service(log, held, name):
         def dbus_Dict(self, d):
             log.append((name, 'Dict', d))
             return d
+
+        def dbus_Ints(self, l):
+            log.append((name, 'Ints', l))
+            return list(l)
+
+        def dbus_Tup1(self, i):
+            log.append((name, 'Tup1', i))
+            return (i,)
 
         def dbus_Nothing(self):
             log.append((name, 'Nothing'))
@@ -98,6 +107,10 @@ CALLS = {
     'dict': ('Dict', [{'k': 'v', 'n': 7}], lambda n, c: ('ok', {'k': 'v',
                                                                 'n': 7}),
              ('Dict', {'k': 'v', 'n': 7})),
+    # single container return values holding exactly one / no element
+    'ints1': ('Ints', [[5]], lambda n, c: ('ok', [5]), ('Ints', [5])),
+    'ints0': ('Ints', [[]], lambda n, c: ('ok', []), ('Ints', [])),
+    'tup1': ('Tup1', [9], lambda n, c: ('ok', [[9]]), ('Tup1', 9)),
     'nothing': ('Nothing', [], lambda n, c: ('ok', None), ('Nothing',)),
     'who': ('Who', [], lambda n, c: ('ok', '%s@%s' % (c, n)), ('Who', None)),
 }
@@ -116,6 +129,9 @@ SCENARIOS = {
                              (1, 0, 'dict')]),
     '2c-who': dict(n=2, exporters={0: 'org.ex.A'},
                    calls=[(1, 0, 'who'), (1, 0, 'nothing')]),
+    '2c-containers': dict(n=2, exporters={0: 'org.ex.A'},
+                          calls=[(1, 0, 'ints1'), (1, 0, 'tup1'),
+                                 (1, 0, 'ints0')]),
     '3c-2callers': dict(n=3, exporters={0: 'org.ex.A'},
                         calls=[(1, 0, 'echo'), (2, 0, 'echo2')]),
     '3c-2exporters': dict(n=3, exporters={0: 'org.ex.A', 2: 'org.ex.C'},
@@ -394,6 +410,7 @@ def run(ctx):
         plan = [('2c-2calls', 'explicit', 1), ('2c-2calls', 'introspect', 1),
                 ('2c-slow', 'explicit', 1), ('2c-fail', 'introspect', 1),
                 ('2c-who', 'explicit', 1), ('2c-3calls', 'explicit', 0),
+                ('2c-containers', 'introspect', 0),
                 ('3c-2callers', 'explicit', 1),
                 ('3c-2exporters', 'introspect', 1)]
         limit = 5000
@@ -401,6 +418,8 @@ def run(ctx):
         plan = [('2c-2calls', 'explicit', 2), ('2c-2calls', 'introspect', 1),
                 ('2c-slow', 'explicit', 1), ('2c-fail', 'introspect', 1),
                 ('2c-who', 'explicit', 1), ('2c-3calls', 'explicit', 0),
+                ('2c-containers', 'introspect', 1),
+                ('2c-containers', 'explicit', 0),
                 ('3c-2callers', 'explicit', 1),
                 ('3c-2exporters', 'introspect', 1),
                 ('3c-mixed', 'explicit', 0), ('4c', 'explicit', 0)]
